@@ -15,28 +15,28 @@ import (
 // asyncCallees start their function argument in another goroutine: it holds no lock of the spawner.
 var asyncCallees = map[string]string{
 	"github.com/panjf2000/ants/v2.(*PoolWithFunc).Invoke": "ants pool worker",
-	"utils.SentryGo": "go statement with sentry recover",
-	"golang.org/x/sync/errgroup.(*Group).Go":             "errgroup goroutine",
+	"utils.SentryGo":                         "go statement with sentry recover",
+	"golang.org/x/sync/errgroup.(*Group).Go": "errgroup goroutine",
 }
 
 // syncCallees run their function arguments in the calling goroutine before returning.
 var syncCallees = map[string]string{
-	"utils.Txn":          "cond; then; rollback (deferred)",
-	"utils.PCR":          "prepare; commit; rollback",
-	"utils.WithTimeout":  "plain call",
-	"utils.Map":          "plain call per element",
-	"utils.Filter":       "plain call per element",
-	"utils.Any":          "plain call per element",
-	"utils.Unique":       "plain call per element",
+	"utils.Txn":           "cond; then; rollback (deferred)",
+	"utils.PCR":           "prepare; commit; rollback",
+	"utils.WithTimeout":   "plain call",
+	"utils.Map":           "plain call per element",
+	"utils.Filter":        "plain call per element",
+	"utils.Any":           "plain call per element",
+	"utils.Unique":        "plain call per element",
 	"utils.GenerateSlice": "plain call per element",
-	"sort.Slice":         "comparator",
-	"sort.SliceStable":   "comparator",
-	"sort.Search":        "predicate",
+	"sort.Slice":          "comparator",
+	"sort.SliceStable":    "comparator",
+	"sort.Search":         "predicate",
 	"github.com/alphadose/haxmap.(*Map).ForEach": "plain call per entry",
-	"sync.(*Once).Do":    "plain call",
+	"sync.(*Once).Do":                            "plain call",
 	"github.com/cenkalti/backoff/v4.Retry":       "retry loop, same goroutine",
 	"github.com/cenkalti/backoff/v4.RetryNotify": "retry loop, same goroutine",
-	"utils.EnsureReaderClosed": "plain",
+	"utils.EnsureReaderClosed":                   "plain",
 }
 
 func fullObjName(f *types.Func) string {
@@ -81,18 +81,18 @@ type litRole struct {
 }
 
 type SCG struct {
-	p        *Prog
-	doLock   *FuncNode
-	classes  []string            // lock classes from cluster.*Lock constants
-	classOf  map[types.Object]string
-	helpers  map[*FuncNode]*lockHelper
-	roles    map[*FuncNode]litRole // role of each literal
-	impls    map[*types.Func][]*FuncNode
-	named    []*types.Named
-	ctxs     map[*FuncNode]map[uint]ctxFrom
-	acq      []acqEdge
+	p          *Prog
+	doLock     *FuncNode
+	classes    []string // lock classes from cluster.*Lock constants
+	classOf    map[types.Object]string
+	helpers    map[*FuncNode]*lockHelper
+	roles      map[*FuncNode]litRole // role of each literal
+	impls      map[*types.Func][]*FuncNode
+	named      []*types.Named
+	ctxs       map[*FuncNode]map[uint]ctxFrom
+	acq        []acqEdge
 	unknownHOF map[string]int
-	problems []string
+	problems   []string
 }
 
 type ctxFrom struct {
